@@ -652,4 +652,21 @@ def taintClosed (R : Resolver) (env : FnEnv) (G : Graph) (reach : List Nat) (ins
         (untrackedN R env S (ins.get i) n.node).all (fun x => S.contains x) &&
         (storedN n.node).all fun x => env.bound.contains x && (!env.nonlocals.contains x || S.contains x)
 
+/-- One round of the closure conditions of `taintClosed`: add every name bound without a sound type under the
+current set, and every nonlocal name a node stores. -/
+def taintRound (R : Resolver) (env : FnEnv) (G : Graph) (reach : List Nat) (ins : NMap) (S : List String) : List String :=
+  reach.foldl (fun acc i => match G.find i with
+    | none => acc
+    | some n =>
+        let add := untrackedN R env acc (ins.get i) n.node ++ (storedN n.node).filter (fun x => env.nonlocals.contains x)
+        add.foldl (fun a x => if a.contains x then a else a ++ [x]) acc) S
+
+/-- The least closed taint set containing `seeds` (iterated until a round adds nothing; `fuel` rounds at most).
+The harness's class predicate must be exactly this set: a larger one would excuse too much. -/
+def leastTaint (R : Resolver) (env : FnEnv) (G : Graph) (reach : List Nat) (ins : NMap) : Nat → List String → List String
+  | 0, S => S
+  | fuel + 1, S =>
+      let S' := taintRound R env G reach ins S
+      if S'.length == S.length then S else leastTaint R env G reach ins fuel S'
+
 end Malt.TypeInf
